@@ -24,7 +24,7 @@ RULE = (
 )
 ASSUMPTIONS = [
     "distinct boundaries of one tier are kept > 4e-14*t apart so that the rounding the statement allows cannot collapse an interval",
-    "blank filling uses minimumIntervalLength=None, or the default 1e-8 on dyadic/decimal textgrids where no interval or gap is that short (sliver absorption is C04's subject)",
+    "blank filling uses minimumIntervalLength=None, or the default 1e-8 on textgrids whose smallest gap between boundaries is >= 1e-6 (so nothing may be absorbed) (sliver absorption is C04's subject)",
     "textgrids whose tiers have their own spans: includeBlankSpaces=True is only combined with includeEmptyIntervals=False (kept blanks would legitimately widen the tier)",
     "fixed point is not asserted for includeEmptyIntervals=False when the input carries explicitly empty-labelled entries",
 ]
@@ -139,12 +139,12 @@ def cases(draw):
     clean = draw(st.integers(0, 5)) > 0
     tg = draw(gen.io_textgrid(clean=clean))
     # the default minimumIntervalLength (1e-8) is used where no interval or gap can be that short
-    mil = "default" if tg["style"] in ("grid", "dec") and draw(st.booleans()) else "none"
+    mil = "default" if gen.min_gap(tg) >= 1e-6 and draw(st.booleans()) else "none"
     return {"tg": tg, "mil": mil}
 
 
 CHECKS = [
-    Check("roundtrip", run_roundtrip, strategy=lambda tier: cases(), quick_n=500, thorough_n=4000, fuzz_runs=6000,
+    Check("roundtrip", run_roundtrip, strategy=lambda tier: cases(), quick_n=400, thorough_n=4000, fuzz_runs=6000,
           doc="each case is saved and reopened in all 16 format/flag combinations"),
 ]
 
